@@ -2297,6 +2297,8 @@ def rule_D10(repo: Repo) -> RuleResult:
                     nv = v.value if isinstance(v, ast.Constant) and isinstance(v.value, bool) else None
                     states = [(k, nv) for k, fl in states]
                 elif any(isinstance(k_, ast.keyword) and k_.arg == vp and norm(k_.value) == vp for k_ in ast.walk(st.value)) \
+                        or any(isinstance(d_, ast.Dict) and any(isinstance(kk, ast.Constant) and kk.value == vp and norm(vv) == vp
+                                                                for kk, vv in zip(d_.keys, d_.values)) for d_ in ast.walk(st.value)) \
                         or (isinstance(st.value, ast.Call) and norm(st.value.func) == "locals"):
                     results.extend((k, fl, st) for k, fl in states)
             elif isinstance(st, ast.If):
